@@ -15,28 +15,69 @@ Definition table : list helper := [
       {| a_loc := "ast.SetFunctionNames"; a_kind := ARead; a_sync := false; a_via := "ast.SymbolValidator.VisitSetFunctionNodeEnd" |};
       {| a_loc := "ast.binaryOpNames"; a_kind := ARead; a_sync := false; a_via := "ast.BinaryBoolExprNode.String" |};
       {| a_loc := "ast.nodeTypeNames"; a_kind := ARead; a_sync := false; a_via := "ast.BinaryExprNode.invalidOpTypes" |};
+      {| a_loc := "boltz.BaseStore.entityPath"; a_kind := ARead; a_sync := false; a_via := "boltz.BaseStore.GetEntitiesBucket" |};
+      {| a_loc := "boltz.BaseStore.mapSymbols"; a_kind := ARead; a_sync := false; a_via := "boltz.BaseStore.GetSymbol" |};
+      {| a_loc := "boltz.BaseStore.parent"; a_kind := ARead; a_sync := false; a_via := "boltz.BaseStore.GetEntitiesBucket" |};
+      {| a_loc := "boltz.BaseStore.publicSymbols"; a_kind := ARead; a_sync := false; a_via := "boltz.BaseStore.IsPublicSymbol" |};
+      {| a_loc := "boltz.BaseStore.symbols"; a_kind := ARead; a_sync := true; a_via := "boltz.BaseStore.GetSymbol" |};
       {| a_loc := "zitiql.ZitiQlLexerLexerStaticData"; a_kind := AWrite; a_sync := true; a_via := "zitiql.zitiqllexerLexerInit" |};
       {| a_loc := "zitiql.ZitiQlLexerLexerStaticData"; a_kind := ARead; a_sync := false; a_via := "zitiql.NewZitiQlLexer" |};
       {| a_loc := "zitiql.ZitiQlLexerLexerStaticData"; a_kind := ARead; a_sync := true; a_via := "zitiql.ZitiQlLexerInit" |};
       {| a_loc := "zitiql.ZitiQlParserStaticData"; a_kind := AWrite; a_sync := true; a_via := "zitiql.zitiqlParserInit" |};
       {| a_loc := "zitiql.ZitiQlParserStaticData"; a_kind := ARead; a_sync := false; a_via := "zitiql.NewZitiQlParser" |};
       {| a_loc := "zitiql.ZitiQlParserStaticData"; a_kind := ARead; a_sync := true; a_via := "zitiql.ZitiQlParserInit" |};
+      {| a_loc := "zitiql.lexerPool"; a_kind := AWrite; a_sync := true; a_via := "zitiql.parse" |};
       {| a_loc := "zitiql.lexerPool"; a_kind := ARead; a_sync := true; a_via := "zitiql.parse" |};
+      {| a_loc := "zitiql.parserPool"; a_kind := AWrite; a_sync := true; a_via := "zitiql.parse" |};
       {| a_loc := "zitiql.parserPool"; a_kind := ARead; a_sync := true; a_via := "zitiql.parse" |}] |};
   {| h_name := "ast.PostProcess"; h_acc := [
       {| a_loc := "ast.SetFunctionNames"; a_kind := ARead; a_sync := false; a_via := "ast.SymbolValidator.VisitSetFunctionNodeEnd" |};
       {| a_loc := "ast.binaryOpNames"; a_kind := ARead; a_sync := false; a_via := "ast.BinaryBoolExprNode.String" |};
-      {| a_loc := "ast.nodeTypeNames"; a_kind := ARead; a_sync := false; a_via := "ast.BinaryExprNode.invalidOpTypes" |}] |};
-  {| h_name := "boltz.BaseStore.GetPublicSymbols"; h_acc := [] |};
-  {| h_name := "boltz.BaseStore.GetSetSymbolTypes"; h_acc := [] |};
-  {| h_name := "boltz.BaseStore.GetSymbol"; h_acc := [] |};
-  {| h_name := "boltz.BaseStore.GetSymbolType"; h_acc := [] |};
-  {| h_name := "boltz.BaseStore.IsPublicSymbol"; h_acc := [] |};
-  {| h_name := "boltz.BaseStore.IsSet"; h_acc := [] |};
+      {| a_loc := "ast.nodeTypeNames"; a_kind := ARead; a_sync := false; a_via := "ast.BinaryExprNode.invalidOpTypes" |};
+      {| a_loc := "boltz.BaseStore.entityPath"; a_kind := ARead; a_sync := false; a_via := "boltz.BaseStore.GetEntitiesBucket" |};
+      {| a_loc := "boltz.BaseStore.mapSymbols"; a_kind := ARead; a_sync := false; a_via := "boltz.BaseStore.GetSymbol" |};
+      {| a_loc := "boltz.BaseStore.parent"; a_kind := ARead; a_sync := false; a_via := "boltz.BaseStore.GetEntitiesBucket" |};
+      {| a_loc := "boltz.BaseStore.publicSymbols"; a_kind := ARead; a_sync := false; a_via := "boltz.BaseStore.IsPublicSymbol" |};
+      {| a_loc := "boltz.BaseStore.symbols"; a_kind := ARead; a_sync := true; a_via := "boltz.BaseStore.GetSymbol" |}] |};
+  {| h_name := "boltz.BaseStore.GetPublicSymbols"; h_acc := [
+      {| a_loc := "boltz.BaseStore.publicSymbols"; a_kind := ARead; a_sync := false; a_via := "boltz.BaseStore.GetPublicSymbols" |}] |};
+  {| h_name := "boltz.BaseStore.GetSetSymbolTypes"; h_acc := [
+      {| a_loc := "boltz.BaseStore.entityPath"; a_kind := ARead; a_sync := false; a_via := "boltz.BaseStore.GetEntitiesBucket" |};
+      {| a_loc := "boltz.BaseStore.mapSymbols"; a_kind := ARead; a_sync := false; a_via := "boltz.BaseStore.GetSymbol" |};
+      {| a_loc := "boltz.BaseStore.parent"; a_kind := ARead; a_sync := false; a_via := "boltz.BaseStore.GetEntitiesBucket" |};
+      {| a_loc := "boltz.BaseStore.symbols"; a_kind := ARead; a_sync := true; a_via := "boltz.BaseStore.GetSymbol" |}] |};
+  {| h_name := "boltz.BaseStore.GetSymbol"; h_acc := [
+      {| a_loc := "boltz.BaseStore.entityPath"; a_kind := ARead; a_sync := false; a_via := "boltz.BaseStore.GetEntitiesBucket" |};
+      {| a_loc := "boltz.BaseStore.mapSymbols"; a_kind := ARead; a_sync := false; a_via := "boltz.BaseStore.GetSymbol" |};
+      {| a_loc := "boltz.BaseStore.parent"; a_kind := ARead; a_sync := false; a_via := "boltz.BaseStore.GetEntitiesBucket" |};
+      {| a_loc := "boltz.BaseStore.symbols"; a_kind := ARead; a_sync := true; a_via := "boltz.BaseStore.GetSymbol" |}] |};
+  {| h_name := "boltz.BaseStore.GetSymbolType"; h_acc := [
+      {| a_loc := "boltz.BaseStore.entityPath"; a_kind := ARead; a_sync := false; a_via := "boltz.BaseStore.GetEntitiesBucket" |};
+      {| a_loc := "boltz.BaseStore.mapSymbols"; a_kind := ARead; a_sync := false; a_via := "boltz.BaseStore.GetSymbol" |};
+      {| a_loc := "boltz.BaseStore.parent"; a_kind := ARead; a_sync := false; a_via := "boltz.BaseStore.GetEntitiesBucket" |};
+      {| a_loc := "boltz.BaseStore.symbols"; a_kind := ARead; a_sync := true; a_via := "boltz.BaseStore.GetSymbol" |}] |};
+  {| h_name := "boltz.BaseStore.IsPublicSymbol"; h_acc := [
+      {| a_loc := "boltz.BaseStore.mapSymbols"; a_kind := ARead; a_sync := false; a_via := "boltz.BaseStore.IsPublicSymbol" |};
+      {| a_loc := "boltz.BaseStore.publicSymbols"; a_kind := ARead; a_sync := false; a_via := "boltz.BaseStore.IsPublicSymbol" |}] |};
+  {| h_name := "boltz.BaseStore.IsSet"; h_acc := [
+      {| a_loc := "boltz.BaseStore.entityPath"; a_kind := ARead; a_sync := false; a_via := "boltz.BaseStore.GetEntitiesBucket" |};
+      {| a_loc := "boltz.BaseStore.mapSymbols"; a_kind := ARead; a_sync := false; a_via := "boltz.BaseStore.GetSymbol" |};
+      {| a_loc := "boltz.BaseStore.parent"; a_kind := ARead; a_sync := false; a_via := "boltz.BaseStore.GetEntitiesBucket" |};
+      {| a_loc := "boltz.BaseStore.symbols"; a_kind := ARead; a_sync := true; a_via := "boltz.BaseStore.GetSymbol" |}] |};
   {| h_name := "boltz.BaseStore.IterateIds"; h_acc := [
-      {| a_loc := "ast.EmptyCursor"; a_kind := ARead; a_sync := false; a_via := "boltz.BaseStore.IterateIds" |}] |};
+      {| a_loc := "ast.EmptyCursor"; a_kind := ARead; a_sync := false; a_via := "boltz.BaseStore.IterateIds" |};
+      {| a_loc := "boltz.BaseStore.entityPath"; a_kind := ARead; a_sync := false; a_via := "boltz.BaseStore.GetEntitiesBucket" |};
+      {| a_loc := "boltz.BaseStore.isExtended"; a_kind := ARead; a_sync := false; a_via := "boltz.BaseStore.IsExtended" |};
+      {| a_loc := "boltz.BaseStore.mapSymbols"; a_kind := ARead; a_sync := false; a_via := "boltz.BaseStore.GetSymbol" |};
+      {| a_loc := "boltz.BaseStore.parent"; a_kind := ARead; a_sync := false; a_via := "boltz.BaseStore.GetEntitiesBucket" |};
+      {| a_loc := "boltz.BaseStore.symbols"; a_kind := ARead; a_sync := true; a_via := "boltz.BaseStore.GetSymbol" |}] |};
   {| h_name := "boltz.BaseStore.IterateValidIds"; h_acc := [
-      {| a_loc := "ast.EmptyCursor"; a_kind := ARead; a_sync := false; a_via := "boltz.BaseStore.IterateIds" |}] |};
+      {| a_loc := "ast.EmptyCursor"; a_kind := ARead; a_sync := false; a_via := "boltz.BaseStore.IterateIds" |};
+      {| a_loc := "boltz.BaseStore.entityPath"; a_kind := ARead; a_sync := false; a_via := "boltz.BaseStore.GetEntitiesBucket" |};
+      {| a_loc := "boltz.BaseStore.isExtended"; a_kind := ARead; a_sync := false; a_via := "boltz.BaseStore.IsExtended" |};
+      {| a_loc := "boltz.BaseStore.mapSymbols"; a_kind := ARead; a_sync := false; a_via := "boltz.BaseStore.GetSymbol" |};
+      {| a_loc := "boltz.BaseStore.parent"; a_kind := ARead; a_sync := false; a_via := "boltz.BaseStore.GetEntitiesBucket" |};
+      {| a_loc := "boltz.BaseStore.symbols"; a_kind := ARead; a_sync := true; a_via := "boltz.BaseStore.GetSymbol" |}] |};
   {| h_name := "boltz.BaseStore.NewScanner"; h_acc := [] |};
   {| h_name := "boltz.BaseStore.QueryIds"; h_acc := [
       {| a_loc := "ast.BoolNodeTrue"; a_kind := ARead; a_sync := false; a_via := "ast.Parse" |};
@@ -44,25 +85,45 @@ Definition table : list helper := [
       {| a_loc := "ast.SetFunctionNames"; a_kind := ARead; a_sync := false; a_via := "ast.SymbolValidator.VisitSetFunctionNodeEnd" |};
       {| a_loc := "ast.binaryOpNames"; a_kind := ARead; a_sync := false; a_via := "ast.BinaryBoolExprNode.String" |};
       {| a_loc := "ast.nodeTypeNames"; a_kind := ARead; a_sync := false; a_via := "ast.BinaryExprNode.invalidOpTypes" |};
+      {| a_loc := "boltz.BaseStore.entityPath"; a_kind := ARead; a_sync := false; a_via := "boltz.BaseStore.GetEntitiesBucket" |};
+      {| a_loc := "boltz.BaseStore.isExtended"; a_kind := ARead; a_sync := false; a_via := "boltz.BaseStore.IsExtended" |};
+      {| a_loc := "boltz.BaseStore.mapSymbols"; a_kind := ARead; a_sync := false; a_via := "boltz.BaseStore.GetSymbol" |};
+      {| a_loc := "boltz.BaseStore.parent"; a_kind := ARead; a_sync := false; a_via := "boltz.BaseStore.GetEntitiesBucket" |};
+      {| a_loc := "boltz.BaseStore.publicSymbols"; a_kind := ARead; a_sync := false; a_via := "boltz.BaseStore.IsPublicSymbol" |};
+      {| a_loc := "boltz.BaseStore.symbols"; a_kind := ARead; a_sync := true; a_via := "boltz.BaseStore.GetSymbol" |};
       {| a_loc := "zitiql.ZitiQlLexerLexerStaticData"; a_kind := AWrite; a_sync := true; a_via := "zitiql.zitiqllexerLexerInit" |};
       {| a_loc := "zitiql.ZitiQlLexerLexerStaticData"; a_kind := ARead; a_sync := false; a_via := "zitiql.NewZitiQlLexer" |};
       {| a_loc := "zitiql.ZitiQlLexerLexerStaticData"; a_kind := ARead; a_sync := true; a_via := "zitiql.ZitiQlLexerInit" |};
       {| a_loc := "zitiql.ZitiQlParserStaticData"; a_kind := AWrite; a_sync := true; a_via := "zitiql.zitiqlParserInit" |};
       {| a_loc := "zitiql.ZitiQlParserStaticData"; a_kind := ARead; a_sync := false; a_via := "zitiql.NewZitiQlParser" |};
       {| a_loc := "zitiql.ZitiQlParserStaticData"; a_kind := ARead; a_sync := true; a_via := "zitiql.ZitiQlParserInit" |};
+      {| a_loc := "zitiql.lexerPool"; a_kind := AWrite; a_sync := true; a_via := "zitiql.parse" |};
       {| a_loc := "zitiql.lexerPool"; a_kind := ARead; a_sync := true; a_via := "zitiql.parse" |};
+      {| a_loc := "zitiql.parserPool"; a_kind := AWrite; a_sync := true; a_via := "zitiql.parse" |};
       {| a_loc := "zitiql.parserPool"; a_kind := ARead; a_sync := true; a_via := "zitiql.parse" |}] |};
   {| h_name := "boltz.BaseStore.QueryIdsC"; h_acc := [
-      {| a_loc := "ast.nodeTypeNames"; a_kind := ARead; a_sync := false; a_via := "ast.NodeTypeName" |}] |};
+      {| a_loc := "ast.nodeTypeNames"; a_kind := ARead; a_sync := false; a_via := "ast.NodeTypeName" |};
+      {| a_loc := "boltz.BaseStore.entityPath"; a_kind := ARead; a_sync := false; a_via := "boltz.BaseStore.GetEntitiesBucket" |};
+      {| a_loc := "boltz.BaseStore.isExtended"; a_kind := ARead; a_sync := false; a_via := "boltz.BaseStore.IsExtended" |};
+      {| a_loc := "boltz.BaseStore.mapSymbols"; a_kind := ARead; a_sync := false; a_via := "boltz.BaseStore.GetSymbol" |};
+      {| a_loc := "boltz.BaseStore.parent"; a_kind := ARead; a_sync := false; a_via := "boltz.BaseStore.GetEntitiesBucket" |};
+      {| a_loc := "boltz.BaseStore.symbols"; a_kind := ARead; a_sync := true; a_via := "boltz.BaseStore.GetSymbol" |}] |};
   {| h_name := "boltz.BaseStore.QueryWithCursorC"; h_acc := [
-      {| a_loc := "ast.nodeTypeNames"; a_kind := ARead; a_sync := false; a_via := "ast.NodeTypeName" |}] |};
+      {| a_loc := "ast.nodeTypeNames"; a_kind := ARead; a_sync := false; a_via := "ast.NodeTypeName" |};
+      {| a_loc := "boltz.BaseStore.entityPath"; a_kind := ARead; a_sync := false; a_via := "boltz.BaseStore.GetEntitiesBucket" |};
+      {| a_loc := "boltz.BaseStore.isExtended"; a_kind := ARead; a_sync := false; a_via := "boltz.BaseStore.IsExtended" |};
+      {| a_loc := "boltz.BaseStore.mapSymbols"; a_kind := ARead; a_sync := false; a_via := "boltz.BaseStore.GetSymbol" |};
+      {| a_loc := "boltz.BaseStore.parent"; a_kind := ARead; a_sync := false; a_via := "boltz.BaseStore.GetEntitiesBucket" |};
+      {| a_loc := "boltz.BaseStore.symbols"; a_kind := ARead; a_sync := true; a_via := "boltz.BaseStore.GetSymbol" |}] |};
   {| h_name := "boltz.IsErrNotFoundErr"; h_acc := [] |};
   {| h_name := "boltz.IsReferenceExistsError"; h_acc := [] |};
   {| h_name := "boltz.IsUniqueIndexDuplicateError"; h_acc := [] |};
   {| h_name := "boltz.NewNotFoundError"; h_acc := [] |};
   {| h_name := "boltz.NewReferenceByIdError"; h_acc := [] |};
   {| h_name := "boltz.NewReferenceByIdsError"; h_acc := [] |};
-  {| h_name := "boltz.ValidIdsCursors.IsExtendedDataPresent"; h_acc := [] |};
+  {| h_name := "boltz.ValidIdsCursors.IsExtendedDataPresent"; h_acc := [
+      {| a_loc := "boltz.BaseStore.entityPath"; a_kind := ARead; a_sync := false; a_via := "boltz.BaseStore.GetEntitiesBucket" |};
+      {| a_loc := "boltz.BaseStore.parent"; a_kind := ARead; a_sync := false; a_via := "boltz.BaseStore.GetEntitiesBucket" |}] |};
   {| h_name := "boltz.ValidIdsCursors.IsValid"; h_acc := [] |};
   {| h_name := "zitiql.Parse"; h_acc := [
       {| a_loc := "zitiql.ZitiQlLexerLexerStaticData"; a_kind := AWrite; a_sync := true; a_via := "zitiql.zitiqllexerLexerInit" |};
@@ -71,7 +132,9 @@ Definition table : list helper := [
       {| a_loc := "zitiql.ZitiQlParserStaticData"; a_kind := AWrite; a_sync := true; a_via := "zitiql.zitiqlParserInit" |};
       {| a_loc := "zitiql.ZitiQlParserStaticData"; a_kind := ARead; a_sync := false; a_via := "zitiql.NewZitiQlParser" |};
       {| a_loc := "zitiql.ZitiQlParserStaticData"; a_kind := ARead; a_sync := true; a_via := "zitiql.ZitiQlParserInit" |};
+      {| a_loc := "zitiql.lexerPool"; a_kind := AWrite; a_sync := true; a_via := "zitiql.parse" |};
       {| a_loc := "zitiql.lexerPool"; a_kind := ARead; a_sync := true; a_via := "zitiql.parse" |};
+      {| a_loc := "zitiql.parserPool"; a_kind := AWrite; a_sync := true; a_via := "zitiql.parse" |};
       {| a_loc := "zitiql.parserPool"; a_kind := ARead; a_sync := true; a_via := "zitiql.parse" |}] |};
   {| h_name := "zitiql.ParseWithDebug"; h_acc := [
       {| a_loc := "zitiql.ZitiQlLexerLexerStaticData"; a_kind := AWrite; a_sync := true; a_via := "zitiql.zitiqllexerLexerInit" |};
@@ -80,7 +143,9 @@ Definition table : list helper := [
       {| a_loc := "zitiql.ZitiQlParserStaticData"; a_kind := AWrite; a_sync := true; a_via := "zitiql.zitiqlParserInit" |};
       {| a_loc := "zitiql.ZitiQlParserStaticData"; a_kind := ARead; a_sync := false; a_via := "zitiql.NewZitiQlParser" |};
       {| a_loc := "zitiql.ZitiQlParserStaticData"; a_kind := ARead; a_sync := true; a_via := "zitiql.ZitiQlParserInit" |};
+      {| a_loc := "zitiql.lexerPool"; a_kind := AWrite; a_sync := true; a_via := "zitiql.parse" |};
       {| a_loc := "zitiql.lexerPool"; a_kind := ARead; a_sync := true; a_via := "zitiql.parse" |};
+      {| a_loc := "zitiql.parserPool"; a_kind := AWrite; a_sync := true; a_via := "zitiql.parse" |};
       {| a_loc := "zitiql.parserPool"; a_kind := ARead; a_sync := true; a_via := "zitiql.parse" |}] |};
   {| h_name := "zitiql.ParseZqlDatetime"; h_acc := [
       {| a_loc := "zitiql.dateTimeStripper"; a_kind := ARead; a_sync := false; a_via := "zitiql.ParseZqlDatetime" |}] |};
